@@ -32,7 +32,9 @@ DOM = """(define (domain v14)
 (:action set-f :parameters () :precondition (and) :effect (and (assign (f) (- (f) 1))))
 (:action set-g :parameters (?x - t1) :precondition (and) :effect (and (increase (g ?x) 0.5)))
 (:action set-h :parameters (?x - t1 ?y - t1) :precondition (and) :effect (and (decrease (h ?x ?y) 2)))
-(:action neg-f :parameters () :precondition (and) :effect (and (assign (f) (* (f) -1)))))
+(:action neg-f :parameters () :precondition (and) :effect (and (assign (f) (* (f) -1))))
+(:action chk-g :parameters (?x - t1) :precondition (and (<= (g ?x) 5)) :effect (and (p ?x)))
+(:action maybe :parameters () :precondition (and) :effect (and (when (r) (not (r))))))
 """
 OBJS = "a - t1 b - t2"   # b's own type is below the declared parameter types: builders annotate its facts differently
 ATOMS_Q = [("p", "a"), ("q", "a", "b"), ("q", "a", "a"), ("r",)]
@@ -248,6 +250,7 @@ def check_case(case):
         trajectory_independence(r)
         constructed_route(r)
         successors_keep_their_value(r)
+        inputs_are_left_alone(r)
         parser_after_a_rejected_state(r)
     return r
 
@@ -278,6 +281,45 @@ def successors_keep_their_value(r):
                    f"when produced and reads {show(got[2]) if not isinstance(got, Raised) else ''} afterwards; == with the copy "
                    f"taken then: {got[0] if not isinstance(got, Raised) else ''}", "unchanged", str(got)[:200],
                    tags=["successor-aliasing", call])
+            return
+
+
+def inputs_are_left_alone(r):
+    """the state handed to is_applicable / apply is the caller's: afterwards it equals the copy taken before (also when
+    the action reads or writes a fluent the state does not define), and what apply returns is another object, tagged
+    as a successor, even when no effect fires"""
+    from pddl_plus_parser.multi_agent.common import create_initial_state
+    for s, call, args in ((RefState([("p", "a")], {("f",): Fraction(1)}), "chk-g", ["a"]),      # (g a) undefined
+                          (RefState([("p", "a")], {("f",): Fraction(1)}), "set-g", ["a"]),
+                          (RefState([("p", "a")], {("f",): Fraction(1), ("g", "a"): Fraction(2)}), "maybe", []),   # nothing fires
+                          (RefState([("r",)], {("f",): Fraction(1)}), "maybe", [])):
+        prob = parse_problem(ptext(s), D())
+        s0 = create_initial_state(prob)
+        kept = s0.copy()
+        before = observe_state(s0)
+
+        def run():
+            op = operator(D(), call, args, prob.objects)
+            ok = op.is_applicable(s0)
+            s1 = op.apply(s0, allow_inapplicable_actions=True)
+            same_object = s1 is s0
+            tag = s1.serialize()[:7]
+            for fl in s1.state_fluents.values():
+                fl.set_value(fl.value + 7.0)
+            for key in list(s1.state_predicates):
+                s1.state_predicates[key].clear()
+            return same_object, tag
+        got = guard(run)
+        after = guard(observe_state, s0)
+        r.count("transitions", 2)
+        eq = guard(lambda: s0 == kept and kept == s0)
+        if isinstance(got, Raised) or isinstance(after, Raised) or not same_state(after, before) or eq is not True \
+                or got[0] or ":state" not in got[1] or set(s0.state_fluents) != set(kept.state_fluents):
+            r.fail("copy-independence", f"({call} {' '.join(args)}) queried and applied on {s.to_json()}, the returned state then "
+                   f"changed in place: the input state reads {show(after)} (== its earlier copy: {eq}; fluent keys "
+                   f"{sorted(s0.state_fluents)} vs {sorted(kept.state_fluents)}); returned object is the input: "
+                   f"{got[0] if not isinstance(got, Raised) else got}, tagged {got[1] if not isinstance(got, Raised) else ''}",
+                   before.to_json(), show(after), tags=["input-left-alone", call])
             return
 
 
